@@ -291,6 +291,9 @@ func (x Expr) GetNodes(n gen.Node) (results []gen.Node) {
 							results = append(results, tv[i])
 						}
 					} else {
+						if end <= start {
+							continue
+						}
 						end = start + (end-start-1)/step*step
 						for i := end; start <= i; i -= step {
 							v = tv[i]
@@ -309,6 +312,9 @@ func (x Expr) GetNodes(n gen.Node) (results []gen.Node) {
 							results = append(results, tv[i])
 						}
 					} else {
+						if start <= end {
+							continue
+						}
 						end = start - (start-end-1)/step*step
 						for i := end; i <= start; i -= step {
 							v = tv[i]
@@ -563,6 +569,9 @@ func (x Expr) FirstNode(n gen.Node) (result gen.Node) {
 					if int(fi) == len(x)-1 && start < end { // last one
 						return tv[start]
 					}
+					if end <= start {
+						continue
+					}
 					end = start + (end-start-1)/step*step
 					for i := end; start <= i; i -= step {
 						v = tv[i]
@@ -577,6 +586,9 @@ func (x Expr) FirstNode(n gen.Node) (result gen.Node) {
 					}
 					if int(fi) == len(x)-1 && end < start { // last one
 						return tv[start]
+					}
+					if start <= end {
+						continue
 					}
 					end = start - (start-end-1)/step*step
 					for i := end; i <= start; i -= step {
